@@ -49,7 +49,7 @@ func (c Case) Key() string {
 var (
 	pairs = []string{"two-reg", "two-reg", "same-reg", "same-reg", "same-repo", "reg2dir", "dir2reg", "dir2dir"}
 	pres  = []string{"empty", "empty", "partial", "stale", "complete", "tagged-incomplete", "partial-manifests", "tagged-manifest-gone"}
-	opts  = []string{"default", "default", "default", "recursive", "referrers", "referrers", "referrers-filter", "digest-tags", "external", "fast"}
+	opts  = []string{"default", "default", "default", "recursive", "referrers", "referrers", "referrers-filter", "referrers-two-filters", "digest-tags", "digest-tags", "external", "fast"}
 )
 
 // RandomCase draws a case.
@@ -64,7 +64,10 @@ func RandomCase(rng *rand.Rand, i int) Case {
 		c.NoHeadD = false
 	}
 	switch c.Opt {
-	case "referrers", "referrers-filter":
+	case "referrers", "referrers-filter", "referrers-two-filters":
+		if c.Opt == "referrers-two-filters" && c.Shape.Referrers < 2 {
+			c.Shape.Referrers = 2 + rng.Intn(2)
+		}
 		if c.Shape.Referrers == 0 {
 			c.Shape.Referrers = 1 + rng.Intn(3)
 			c.Shape.RefOfRef = rng.Intn(2) == 0
@@ -76,6 +79,7 @@ func RandomCase(rng *rand.Rand, i int) Case {
 		if c.Shape.DigestTags == 0 {
 			c.Shape.DigestTags = 1 + rng.Intn(2)
 		}
+		c.Shape.DTagAlias = rng.Intn(2) == 0
 		if rng.Intn(2) == 0 {
 			c.Shape.ChildDTags = 1
 		}
@@ -86,7 +90,7 @@ func RandomCase(rng *rand.Rand, i int) Case {
 		// schema1 cannot carry referrers; keep sha512 graphs to the plain options
 		if c.Shape.Kind == "schema1" {
 			c.Shape.Referrers, c.Shape.RefOfRef, c.Shape.ChildRefs = 0, false, 0
-			if c.Opt == "referrers" || c.Opt == "referrers-filter" {
+			if c.Opt == "referrers" || c.Opt == "referrers-filter" || c.Opt == "referrers-two-filters" {
 				c.Opt = "default"
 			}
 		}
@@ -258,6 +262,14 @@ func Setup(c Case) (*Result, error) {
 				sel[id] = true
 			}
 			tags[r.TgtTag] = st
+			if c.Opt == "digest-tags" {
+				// the digest tags exist at the target as well, and name something older
+				for t := range g.Tags {
+					if strings.Contains(t, "-") && strings.Contains(t, ".") && t != r.TgtTag && t != r.SrcTag && (strings.HasPrefix(t, "sha256-") || strings.HasPrefix(t, "sha512-")) {
+						tags[t] = st
+					}
+				}
+			}
 		}
 		keep = func(n *gen.Node) bool { return sel[n.ID] }
 	case "complete":
@@ -297,7 +309,8 @@ func Setup(c Case) (*Result, error) {
 	switch c.Opt {
 	case "recursive":
 		r.Want.ForceRecursive = true
-	case "referrers":
+	case "referrers", "referrers-two-filters":
+		// (the two filters together select every referrer the generator makes: signatures and SBOMs)
 		r.Want.Referrers = true
 	case "referrers-filter":
 		r.Want.Referrers = true
@@ -332,6 +345,14 @@ func (r *Result) ImageOpts() []regclient.ImageOpts {
 		return []regclient.ImageOpts{regclient.ImageWithReferrers()}
 	case "referrers-filter":
 		return []regclient.ImageOpts{regclient.ImageWithReferrers(scheme.WithReferrerMatchOpt(descriptor.MatchOpt{ArtifactType: "application/vnd.example.sig"}))}
+	case "referrers-two-filters":
+		// two filters in one copy, as regsync's referrerFilters list produces them
+		a, b := "application/vnd.example.sbom", "application/vnd.example.sig"
+		if r.Case.I%2 == 1 {
+			a, b = b, a
+		}
+		return []regclient.ImageOpts{regclient.ImageWithReferrers(scheme.WithReferrerMatchOpt(descriptor.MatchOpt{ArtifactType: a})),
+			regclient.ImageWithReferrers(scheme.WithReferrerMatchOpt(descriptor.MatchOpt{ArtifactType: b}))}
 	case "digest-tags":
 		return []regclient.ImageOpts{regclient.ImageWithDigestTags()}
 	case "external":
